@@ -1,83 +1,4 @@
 """C11 — a chunk-cache hit returns exactly the bytes committed under that key (cache/cache.go)."""
-import os
-import re
-
-import vlib
-
-
-def _ordered(ctx, rel, name, start, needles, stop=None):
-    """Structural tie: inside the source text that follows `start` (up to `stop`), the `needles`
-    (regexes) occur in this order.  Regenerated from the current sources on every run."""
-    try:
-        src = open(os.path.join(vlib.REPO, rel)).read()
-    except OSError:
-        ctx.broken.append(f"fact:missing:{rel}")
-        return
-    m = re.search(start, src)
-    if not m:
-        ctx.broken.append(f"fact:{name}:anchor")
-        return
-    body = src[m.end():]
-    if stop:
-        e = re.search(stop, body)
-        if e:
-            body = body[:e.start()]
-    pos = 0
-    for n in needles:
-        mm = re.compile(n).search(body, pos)
-        if not mm:
-            ctx.broken.append(f"fact:{name}:{n[:40]}")
-            return
-        pos = mm.end()
-    ctx.cov["facts_checked"] += 1
-
-
-def _facts(ctx):
-    # the step granularity of the model: every LRUCache method and done closure is one critical section
-    heads = [r"func \(c \*LRUCache\) Get\(key string\) \(.*\) \{", r"func \(c \*LRUCache\) Add\(key string, value any\) \(.*\) \{",
-             r"return func\(\) \{"]
-    for h in heads:
-        _ordered(ctx, "util/cacheutil/lrucache.go", "lock-first:" + h[:30], h,
-                 [r"\A\s*\n?\s*c\.mu\.Lock\(\)\s*\n\s*defer c\.mu\.Unlock\(\)"])
-    # refCounter.dec fires the callback only at zero
-    _ordered(ctx, "util/cacheutil/lrucache.go", "dec", r"func \(r \*refCounter\) dec\(\) \{",
-             [r"r\.refCounts--", r"if r\.refCounts <= 0 && r\.onEvicted != nil", r"r\.onEvicted\(r\.key, r\.v\)"], stop=r"\n}\n")
-    c = "cache/cache.go"
-    # OnEvicted callbacks
-    _ordered(ctx, c, "evict-buf", r"dataCache\.OnEvicted = func\(key string, value any\) \{",
-             [r"value\.\(\*bytes\.Buffer\)\.Reset\(\)", r"bufPool\.Put\(value\)"], stop=r"\n\t\t}\n")
-    _ordered(ctx, c, "evict-fd", r"fdCache\.OnEvicted = func\(key string, value any\) \{",
-             [r"value\.\(\*os\.File\)\.Close\(\)"], stop=r"\n\t\t}\n")
-    # Get: memory LRU, descriptor LRU, os.Open(cachePath); the opened file enters the descriptor LRU on Close
-    _ordered(ctx, c, "get", r"func \(dc \*directoryCache\) Get\(",
-             [r"if !dc\.direct && !opt\.direct \{", r"dc\.cache\.Get\(key\)", r"bytes\.NewReader\(b\.\(\*bytes\.Buffer\)\.Bytes\(\)\)",
-              r"done\(\)", r"dc\.fileCache\.Get\(key\)", r"done\(\)", r"os\.Open\(dc\.cachePath\(key\)\)",
-              r"if dc\.direct \|\| opt\.direct \{", r"return file\.Close\(\)",
-              r"_, done, added := dc\.fileCache\.Add\(key, file\)", r"defer done\(\)", r"if !added \{", r"return file\.Close\(\)"],
-             stop=r"\nfunc \(dc \*directoryCache\) Add\(")
-    # Add: wip file; file writer commit = ... rename last; abort = remove wip;
-    # memory writer commit = cache.Add, putBuffer if !added, then (deferred done, Close) Write cached bytes,
-    # check, Commit; abort = putBuffer + w.Abort + w.Close
-    _ordered(ctx, c, "add", r"func \(dc \*directoryCache\) Add\(",
-             [r"wip, err := dc\.wipFile\(key\)", r"commitFunc: func\(\) error \{", r"c := dc\.cachePath\(key\)",
-              r"return os\.Rename\(wip\.Name\(\), c\)", r"abortFunc: func\(\) error \{", r"return os\.Remove\(wip\.Name\(\)\)",
-              r"if dc\.direct \|\| opt\.direct \{\s*\n\s*return w, nil", r"b := dc\.bufPool\.Get\(\)\.\(\*bytes\.Buffer\)",
-              r"WriteCloser: nopWriteCloser\(io\.Writer\(b\)\)",
-              r"cached, done, added := dc\.cache\.Add\(key, b\)", r"if !added \{\s*\n\s*dc\.putBuffer\(b\)",
-              r"commit := func\(\) error \{", r"defer done\(\)", r"defer w\.Close\(\)",
-              r"n, err := w\.Write\(cached\.\(\*bytes\.Buffer\)\.Bytes\(\)\)",
-              r"if err != nil \|\| n != cached\.\(\*bytes\.Buffer\)\.Len\(\) \{\s*\n\s*w\.Abort\(\)\s*\n\s*return err",
-              r"return w\.Commit\(\)", r"if dc\.syncAdd \{\s*\n\s*return commit\(\)", r"go func\(\) \{",
-              r"abortFunc: func\(\) error \{", r"defer w\.Close\(\)", r"defer w\.Abort\(\)", r"dc\.putBuffer\(b\)"],
-             stop=r"\nfunc \(dc \*directoryCache\) putBuffer\(")
-    _ordered(ctx, c, "putBuffer", r"func \(dc \*directoryCache\) putBuffer\(b \*bytes\.Buffer\) \{",
-             [r"b\.Reset\(\)", r"dc\.bufPool\.Put\(b\)"], stop=r"\n}\n")
-    _ordered(ctx, c, "wip", r"func \(dc \*directoryCache\) wipFile\(",
-             [r"os\.CreateTemp\(dc\.wipDirectory, key\+\"-\*\"\)"], stop=r"\n}\n")
-    _ordered(ctx, c, "memcache", r"func \(mc \*MemoryCache\) Get\(",
-             [r"mc\.mu\.Lock\(\)", r"b, ok := mc\.Membuf\[key\]", r"bytes\.NewReader\(b\.Bytes\(\)\)",
-              r"func \(mc \*MemoryCache\) Add\(", r"b := new\(bytes\.Buffer\)", r"mc\.mu\.Lock\(\)", r"mc\.Membuf\[key\] = b"],
-             stop=r"\nfunc \(mc \*MemoryCache\) Close\(")
 
 
 def _race(ctx, br, env):
@@ -109,22 +30,26 @@ def _race(ctx, br, env):
 def run(ctx):
     ctx.lean_obligations(["SV.Props.C11"], drivers=["svdriver_c11"])
     quick = ctx.tier == "quick"
-    _facts(ctx)
     b = ctx.go_test_binary("cache", "h_cache")
     if b:
         ctx.correspond(b, "TestVerifC11", "svdriver_c11", "c11",
                        env={"VERIF_MODE": "both", "VERIF_N": 600 if quick else 8000,
                             "VERIF_ROUNDS": 10 if quick else 40, "VERIF_ITERS": 250 if quick else 400})
-    if not quick:
-        br = ctx.go_test_binary("cache", "h_cache_race", race=True)
-        if br:
-            _race(ctx, br, {"VERIF_MODE": "conc", "VERIF_ROUNDS": 20, "VERIF_ITERS": 300})
+    # No textual pin on the sources: what the model assumes about locking (every LRU operation is one
+    # critical section, the MemoryCache map is only touched under its mutex) is looked for dynamically, by the
+    # same stress under the Go race detector -- a short run in the quick tier, a long one in the thorough tier.
+    br = ctx.go_test_binary("cache", "h_cache_race", race=True)
+    if br:
+        _race(ctx, br, {"VERIF_MODE": "conc", "VERIF_ROUNDS": 4 if quick else 20,
+                        "VERIF_ITERS": 150 if quick else 300})
     return ctx.finish(
         level="proof",
-        rule="sequential: 9 scripted edge histories (reader held across eviction, buffer recycling and re-add; "
+        rule="sequential: 12 scripted edge histories (reader held across eviction, buffer recycling and re-add; "
              "duplicate adds while cached / after eviction / two open writers of one key; zero-length values, aborts, "
              "close-without-commit, commit-after-close; Direct/PassThrough mixes and Direct config; a Commit whose disk "
-             "write fails (RLIMIT_FSIZE=0) so the value lives in memory only; default capacities with 12 keys), each for "
+             "write fails (RLIMIT_FSIZE=0) so the value lives in memory only; default capacities with 12 keys; overlapping writers of one key writing straight to their wip files under "
+             "the Direct option and the Direct configuration; a writer aborted with data in its buffer followed by a "
+             "writer that gets that buffer), each for "
              "the directory cache and where applicable the memory cache, then random histories of 15-75 whole API calls "
              "(Add / Write in pieces / Commit / failing Commit / Abort / Close, Get / ReadAt at offsets / Close) over "
              "max(memcap,fdcap)+1..3 keys with caps 1-3 and SyncAdd=true, values self-describing (key, writer id, "
@@ -133,11 +58,15 @@ def run(ctx):
              "checks each hit against the values whose Commit was called under that key and each later read against the "
              "first full read.  concurrent (oracle only): rounds of 6-12 goroutines x 250-400 operations over 3-6 keys "
              "(half of the traffic on one hot key), LRU caps 1-2, background persistence (SyncAdd=false in 3/4 of the "
-             "rounds), Direct 0-40%, values up to 256 KiB, readers held across evictions and re-read"
-             + ("" if quick else "; the same stress additionally under the Go race detector"),
+             "rounds), Direct 0-40%, values up to 256 KiB, readers held across evictions and re-read.  use-after-recycle "
+             "poisoning (both parts): the cache gets the harness's own sync.Pool (DirectoryCacheConfig.BufPool) and the "
+             "harness keeps overwriting the unused backing array of every POOLED buffer with 0xDB, so a reader that still "
+             "looks at a recycled buffer sees it at once.  The same stress also runs under the Go race detector ("
+             + ("4 rounds" if quick else "20 rounds") + ")",
         assumptions=[
-            "granularity: every LRUCache method / done closure is one critical section (lock-first shape re-checked on the "
-            "sources each run); open, rename, unlink are atomic in the OS; code that touches only objects private to one "
+            "granularity: every LRUCache operation (Get, Add, the effective call of a done closure incl. OnEvicted) is one "
+            "critical section -- not pinned on the source text; unsynchronised access would show up in the race-detector "
+            "stress; open, rename, unlink are atomic in the OS; code that touches only objects private to one "
             "goroutine (a writer's buffer and wip file before Commit) is one step.  Theorems quantify over ALL sequences "
             "of such steps = all interleavings at this granularity",
             "API protocol (followed by every caller in /repo): on a writer Write* then exactly one of Commit/Abort, no "
